@@ -441,3 +441,547 @@ Proof.
     rewrite Hp. cbn [app resolve]. exact Hv.
 Qed.
 End StepValue.
+
+(* ---------- callbacks that agree below a path give the same traversal ---------- *)
+Lemma visit_ext push1 pop1 push2 pop2 ch1 ch2 p v :
+  push1 p = push2 p -> pop1 p = pop2 p -> ch1 p v = ch2 p v ->
+  visit push1 pop1 ch1 p v = visit push2 pop2 ch2 p v.
+Proof. intros H1 H2 H3. unfold visit. now rewrite H1, H2, H3. Qed.
+
+Lemma children_ext push1 pop1 push2 pop2 : forall t p,
+  (forall l, l <> [] -> push1 (p ++ l) = push2 (p ++ l)) ->
+  (forall l, l <> [] -> pop1 (p ++ l) = pop2 (p ++ l)) ->
+  children push1 pop1 p t = children push2 pop2 p t.
+Proof.
+  induction t as [t IH] using tree_kids_ind. intros p H1 H2.
+  rewrite !children_kids.
+  rewrite (loop_ext (fun s v => visit push1 pop1 (children push1 pop1) (p ++ [s]) v)
+                    (fun s v => visit push2 pop2 (children push2 pop2) (p ++ [s]) v)); [reflexivity|].
+  intros s v Hin. apply visit_ext.
+  - apply H1. discriminate.
+  - apply H2. discriminate.
+  - apply (IH s v Hin).
+    + intros l Hl. rewrite <- app_assoc. apply H1. discriminate.
+    + intros l Hl. rewrite <- app_assoc. apply H2. discriminate.
+Qed.
+
+(* ---------- break_semantics / terminate_semantics ---------- *)
+Definition step_eq_dec : forall a b : step, {a = b} + {a <> b}.
+Proof. decide equality; apply N.eq_dec. Defined.
+Definition path_eq_dec : forall a b : path, {a = b} + {a <> b} := list_eq_dec step_eq_dec.
+
+(* the callback that returns V exactly at path q *)
+Definition at_path (q : path) (V : verdict) : callback :=
+  fun p => if path_eq_dec p q then V else Continue.
+
+Lemma at_path_eq q V : at_path q V q = V.
+Proof. unfold at_path. destruct (path_eq_dec q q); congruence. Qed.
+Lemma at_path_neq q V p : p <> q -> at_path q V p = Continue.
+Proof. unfold at_path. destruct (path_eq_dec p q); congruence. Qed.
+
+(* kid lists: keep the kids up to and including step s (value replaced) / replace only *)
+Fixpoint upto (ks : list (step * tree)) (s : step) (v' : tree) : list (step * tree) :=
+  match ks with
+  | [] => []
+  | (s0, v) :: r => if step_eq_dec s0 s then [(s0, v')] else (s0, v) :: upto r s v'
+  end.
+Fixpoint replk (ks : list (step * tree)) (s : step) (v' : tree) : list (step * tree) :=
+  match ks with
+  | [] => []
+  | (s0, v) :: r => if step_eq_dec s0 s then (s0, v') :: r else (s0, v) :: replk r s v'
+  end.
+
+Definition strip (t : tree) : tree :=
+  match t with
+  | Scalar => Scalar
+  | Message _ _ _ => Message [] false None
+  | TList _ => TList []
+  | TMap _ => TMap []
+  end.
+Lemma kids_strip t : kids (strip t) = [].
+Proof. destruct t; reflexivity. Qed.
+
+Definition paths (ev : list event) : list (bool * path) :=
+  map (fun e => match e with Push p _ => (true, p) | Pop p _ => (false, p) end) ev.
+Lemma paths_app a b : paths (a ++ b) = paths a ++ paths b.
+Proof. apply map_app. Qed.
+
+Section Cut.
+(* V is returned by push at q = p ++ s :: r'; everything else continues.
+   [vis1] is the implementation-side visit, [vis2] the all-continue visit. *)
+Variable V : verdict.
+Hypothesis V_not_nil : is_nil V = false.
+
+Lemma visit_hit q v :
+  visit (at_path q V) cont (children (at_path q V) cont) q v = (V, [Push q v; Pop q v]).
+Proof.
+  unfold visit. rewrite at_path_eq.
+  assert (amend Continue V = V) as -> by (destruct V; reflexivity || discriminate).
+  rewrite V_not_nil. cbn [cont always amend app]. destruct V; reflexivity.
+Qed.
+
+Lemma visit_strip p v :
+  visit cont cont (children cont cont) p (strip v) = (Continue, [Push p (strip v); Pop p (strip v)]).
+Proof.
+  rewrite visit_continue by apply children_continue.
+  rewrite children_kids, kids_strip. reflexivity.
+Qed.
+
+(* a subtree that q does not pass through is traversed as with all-continue callbacks *)
+Lemma visit_miss p s r' s0 v0 :
+  s0 <> s ->
+  visit (at_path (p ++ s :: r') V) cont (children (at_path (p ++ s :: r') V) cont) (p ++ [s0]) v0
+  = visit cont cont (children cont cont) (p ++ [s0]) v0.
+Proof.
+  intros Hne.
+  assert (Hp : forall l, at_path (p ++ s :: r') V ((p ++ [s0]) ++ l) = Continue).
+  { intros l. apply at_path_neq. rewrite <- app_assoc. intros E. apply app_inv_head in E.
+    cbn in E. congruence. }
+  apply visit_ext.
+  - rewrite <- (app_nil_r (p ++ [s0])). apply Hp.
+  - reflexivity.
+  - apply children_ext; [intros l _; apply Hp | reflexivity].
+Qed.
+
+(* all-continue loops end with Continue *)
+Lemma loop_continue p ks :
+  fst (loop (fun s0 v0 => visit cont cont (children cont cont) (p ++ [s0]) v0) ks) = Continue.
+Proof.
+  induction ks as [|[s2 v2] r2 IH2]; [reflexivity|]. cbn [loop].
+  rewrite visit_continue by apply children_continue. cbn [is_nil].
+  destruct (loop _ r2). exact IH2.
+Qed.
+
+(* the loop over the kids, given what happens at the kid (s, v) on the path *)
+Lemma loop_cut p s r' v v' E ev1 ev2 :
+  let vis1 := fun s0 v0 => visit (at_path (p ++ s :: r') V) cont (children (at_path (p ++ s :: r') V) cont) (p ++ [s0]) v0 in
+  let vis2 := fun s0 v0 => visit cont cont (children cont cont) (p ++ [s0]) v0 in
+  vis1 s v = (E, ev1) ->
+  vis2 s v' = (Continue, ev2) ->
+  paths ev1 = paths ev2 ->
+  forall ks, In (s, v) ks -> NoDup (map fst ks) ->
+  fst (loop vis1 ks) = E /\
+  paths (snd (loop vis1 ks)) = paths (snd (loop vis2 (if is_nil E then replk ks s v' else upto ks s v'))).
+Proof.
+  intros vis1 vis2 H1 H2 Hp.
+  assert (Hm : forall s0 v0, s0 <> s -> vis1 s0 v0 = vis2 s0 v0) by (intros; now apply visit_miss).
+  assert (Hc : forall s0 v0, is_nil (fst (vis2 s0 v0)) = true).
+  { intros. unfold vis2. now rewrite visit_continue by apply children_continue. }
+  induction ks as [|[s0 v0] r IH]; intros Hin Hnd; [destruct Hin|].
+  cbn [map fst] in Hnd. inversion Hnd as [|? ? Hnotin Hnd']; subst.
+  cbn [loop upto replk]. destruct (step_eq_dec s0 s) as [->|Hne].
+  - (* the kid on the path *)
+    assert (v0 = v) as ->.
+    { destruct Hin as [Hin|Hin]; [now inversion Hin|].
+      exfalso. apply Hnotin. now apply (in_map fst) in Hin. }
+    rewrite H1. destruct (is_nil E) eqn:HE.
+    + apply is_nil_true in HE. subst E. cbn [loop]. rewrite H2. cbn [is_nil].
+      assert (Hrest : loop vis1 r = loop vis2 r).
+      { apply loop_ext. intros s1 v1 Hin1. apply Hm.
+        intros ->. apply Hnotin. now apply (in_map fst) in Hin1. }
+      rewrite Hrest. pose proof (loop_continue p r) as Hl. fold vis2 in Hl.
+      destruct (loop vis2 r) as [e' ev']. cbn [fst snd] in *.
+      split; [exact Hl | now rewrite !paths_app, Hp].
+    + cbn [loop]. rewrite H2. cbn [is_nil fst snd].
+      split; [reflexivity|]. now rewrite app_nil_r.
+  - (* a kid before the path: unaffected *)
+    assert (Hin' : In (s, v) r) by (destruct Hin as [Hin|Hin]; [inversion Hin; congruence | exact Hin]).
+    specialize (IH Hin' Hnd'). destruct IH as [IHe IHp].
+    rewrite (Hm s0 v0 Hne). specialize (Hc s0 v0).
+    destruct (loop vis1 r) as [e1 evs1]. cbn [fst snd] in IHe, IHp.
+    destruct (is_nil E); cbn [loop]; destruct (vis2 s0 v0) as [e0 ev0]; cbn [fst] in Hc; rewrite Hc.
+    + destruct (loop vis2 (replk r s v')) as [e2 evs2]. cbn [fst snd] in *.
+      split; [exact IHe | now rewrite !paths_app, IHp].
+    + destruct (loop vis2 (upto r s v')) as [e2 evs2]. cbn [fst snd] in *.
+      split; [exact IHe | now rewrite !paths_app, IHp].
+Qed.
+End Cut.
+
+(* ---------- pruned trees ---------- *)
+Fixpoint upto_assoc (l : list (N * tree)) (k : N) (v' : tree) : list (N * tree) :=
+  match l with
+  | [] => []
+  | (k0, v) :: r => if k0 =? k then [(k0, v')] else (k0, v) :: upto_assoc r k v'
+  end.
+Fixpoint repl_assoc (l : list (N * tree)) (k : N) (v' : tree) : list (N * tree) :=
+  match l with
+  | [] => []
+  | (k0, v) :: r => if k0 =? k then (k0, v') :: r else (k0, v) :: repl_assoc r k v'
+  end.
+Fixpoint upto_nth (l : list tree) (i : nat) (v' : tree) : list tree :=
+  match l with
+  | [] => []
+  | v :: r => match i with O => [v'] | S i' => v :: upto_nth r i' v' end
+  end.
+Fixpoint repl_nth (l : list tree) (i : nat) (v' : tree) : list tree :=
+  match l with
+  | [] => []
+  | v :: r => match i with O => v' :: r | S i' => v :: repl_nth r i' v' end
+  end.
+
+(* [trunc t s v']: t without the kids after step s, the value at s replaced by v'
+   (for the unknown-fields step, which is last and has no children, t itself) *)
+Definition trunc (t : tree) (s : step) (v' : tree) : tree :=
+  match t with
+  | Scalar => t
+  | Message fields unk any =>
+      match any with
+      | Some _ => match s with SAny => Message fields unk (Some v') | _ => t end
+      | None => match s with SField n => Message (upto_assoc fields n v') false None | _ => t end
+      end
+  | TList elems => match s with SIndex i => TList (upto_nth elems (N.to_nat i) v') | _ => t end
+  | TMap es => match s with SKey k => TMap (upto_assoc es k v') | _ => t end
+  end.
+
+(* [repl t s v']: t with the value at step s replaced by v' *)
+Definition repl (t : tree) (s : step) (v' : tree) : tree :=
+  match t with
+  | Scalar => t
+  | Message fields unk any =>
+      match any with
+      | Some _ => match s with SAny => Message fields unk (Some v') | _ => t end
+      | None => match s with SField n => Message (repl_assoc fields n v') unk None | _ => t end
+      end
+  | TList elems => match s with SIndex i => TList (repl_nth elems (N.to_nat i) v') | _ => t end
+  | TMap es => match s with SKey k => TMap (repl_assoc es k v') | _ => t end
+  end.
+
+Lemma upto_fields l tail k v' :
+  In k (map fst l) -> upto (map fkid l ++ tail) (SField k) v' = map fkid (upto_assoc l k v').
+Proof.
+  induction l as [|[k0 v0] r IH]; intros Hin; [destruct Hin|].
+  cbn [map app fkid fst snd upto upto_assoc].
+  destruct (step_eq_dec (SField k0) (SField k)) as [E|E].
+  - inversion E; subst. now rewrite N.eqb_refl.
+  - destruct (k0 =? k) eqn:Ek; [apply N.eqb_eq in Ek; congruence|].
+    cbn [map fkid fst snd]. f_equal. apply IH. destruct Hin as [Hin|Hin]; [cbn in Hin; congruence | exact Hin].
+Qed.
+
+Lemma replk_fields l tail k v' :
+  In k (map fst l) -> replk (map fkid l ++ tail) (SField k) v' = map fkid (repl_assoc l k v') ++ tail.
+Proof.
+  induction l as [|[k0 v0] r IH]; intros Hin; [destruct Hin|].
+  cbn [map app fkid fst snd replk repl_assoc].
+  destruct (step_eq_dec (SField k0) (SField k)) as [E|E].
+  - inversion E; subst. now rewrite N.eqb_refl.
+  - destruct (k0 =? k) eqn:Ek; [apply N.eqb_eq in Ek; congruence|].
+    cbn [map app fkid fst snd]. f_equal. apply IH. destruct Hin as [Hin|Hin]; [cbn in Hin; congruence | exact Hin].
+Qed.
+
+Lemma upto_keys l k v' :
+  In k (map fst l) -> upto (map kkid l) (SKey k) v' = map kkid (upto_assoc l k v').
+Proof.
+  induction l as [|[k0 v0] r IH]; intros Hin; [destruct Hin|].
+  cbn [map kkid fst snd upto upto_assoc].
+  destruct (step_eq_dec (SKey k0) (SKey k)) as [E|E].
+  - inversion E; subst. now rewrite N.eqb_refl.
+  - destruct (k0 =? k) eqn:Ek; [apply N.eqb_eq in Ek; congruence|].
+    cbn [map kkid fst snd]. f_equal. apply IH. destruct Hin as [Hin|Hin]; [cbn in Hin; congruence | exact Hin].
+Qed.
+
+Lemma replk_keys l k v' :
+  In k (map fst l) -> replk (map kkid l) (SKey k) v' = map kkid (repl_assoc l k v').
+Proof.
+  induction l as [|[k0 v0] r IH]; intros Hin; [destruct Hin|].
+  cbn [map kkid fst snd replk repl_assoc].
+  destruct (step_eq_dec (SKey k0) (SKey k)) as [E|E].
+  - inversion E; subst. now rewrite N.eqb_refl.
+  - destruct (k0 =? k) eqn:Ek; [apply N.eqb_eq in Ek; congruence|].
+    cbn [map kkid fst snd]. f_equal. apply IH. destruct Hin as [Hin|Hin]; [cbn in Hin; congruence | exact Hin].
+Qed.
+
+Lemma upto_unknown l v' :
+  upto (map fkid l ++ [(SUnknown, Scalar)]) SUnknown v' = map fkid l ++ [(SUnknown, v')].
+Proof.
+  induction l as [|[k0 v0] r IH]; cbn [map app fkid fst snd upto].
+  - destruct (step_eq_dec SUnknown SUnknown); congruence.
+  - destruct (step_eq_dec (SField k0) SUnknown); [discriminate|]. now rewrite IH.
+Qed.
+Lemma replk_unknown l v' :
+  replk (map fkid l ++ [(SUnknown, Scalar)]) SUnknown v' = map fkid l ++ [(SUnknown, v')].
+Proof.
+  induction l as [|[k0 v0] r IH]; cbn [map app fkid fst snd replk].
+  - destruct (step_eq_dec SUnknown SUnknown); congruence.
+  - destruct (step_eq_dec (SField k0) SUnknown); [discriminate|]. now rewrite IH.
+Qed.
+
+Lemma upto_indexed : forall l k i v',
+  k <= i -> (N.to_nat (i - k) < length l)%nat ->
+  upto (indexed k l) (SIndex i) v' = indexed k (upto_nth l (N.to_nat (i - k)) v').
+Proof.
+  induction l as [|v0 r IH]; intros k i v' Hle Hlt; [cbn in Hlt; lia|].
+  cbn [indexed upto]. destruct (step_eq_dec (SIndex k) (SIndex i)) as [E|E].
+  - inversion E; subst. rewrite N.sub_diag. reflexivity.
+  - assert (k <> i) by congruence.
+    replace (N.to_nat (i - k)) with (S (N.to_nat (i - (k + 1)))) by lia.
+    cbn [upto_nth indexed]. f_equal. apply IH; [lia | cbn [length] in Hlt; lia].
+Qed.
+Lemma replk_indexed : forall l k i v',
+  k <= i -> (N.to_nat (i - k) < length l)%nat ->
+  replk (indexed k l) (SIndex i) v' = indexed k (repl_nth l (N.to_nat (i - k)) v').
+Proof.
+  induction l as [|v0 r IH]; intros k i v' Hle Hlt; [cbn in Hlt; lia|].
+  cbn [indexed replk]. destruct (step_eq_dec (SIndex k) (SIndex i)) as [E|E].
+  - inversion E; subst. rewrite N.sub_diag. reflexivity.
+  - assert (k <> i) by congruence.
+    replace (N.to_nat (i - k)) with (S (N.to_nat (i - (k + 1)))) by lia.
+    cbn [repl_nth indexed]. f_equal. apply IH; [lia | cbn [length] in Hlt; lia].
+Qed.
+
+Lemma in_fkid_map l n v : In (SField n, v) (map fkid l) -> In n (map fst l).
+Proof.
+  intros H. apply in_map_iff in H. destruct H as [[n' v'] [E Hin]]. inversion E; subst.
+  now apply (in_map fst) in Hin.
+Qed.
+Lemma in_kkid_map l n v : In (SKey n, v) (map kkid l) -> In n (map fst l).
+Proof.
+  intros H. apply in_map_iff in H. destruct H as [[n' v'] [E Hin]]. inversion E; subst.
+  now apply (in_map fst) in Hin.
+Qed.
+Lemma fkid_steps l s v : In (s, v) (map fkid l) -> exists n, s = SField n.
+Proof. intros H. apply in_map_iff in H. destruct H as [[n' v'] [E _]]. inversion E; eauto. Qed.
+Lemma kkid_steps l s v : In (s, v) (map kkid l) -> exists n, s = SKey n.
+Proof. intros H. apply in_map_iff in H. destruct H as [[n' v'] [E _]]. inversion E; eauto. Qed.
+
+(* the unknown-fields kid can only be replaced by itself *)
+Definition unk_ok (s : step) (v' : tree) : Prop := s = SUnknown -> v' = Scalar.
+
+Lemma kids_trunc t s v v' :
+  In (s, v) (kids t) -> unk_ok s v' -> kids (trunc t s v') = upto (kids t) s v'.
+Proof.
+  intros Hin Hu. destruct t as [|fields unk [m2|]|elems|entries]; cbn [kids] in Hin.
+  - destruct Hin.
+  - destruct Hin as [Hin|[]]. inversion Hin; subst. cbn [trunc kids upto].
+    destruct (step_eq_dec SAny SAny); congruence.
+  - apply in_app_or in Hin. destruct Hin as [Hin|Hin].
+    + destruct (fkid_steps _ _ _ Hin) as [n ->]. cbn [trunc kids].
+      rewrite upto_fields by (eapply in_fkid_map; eauto). now rewrite app_nil_r.
+    + destruct unk; [|destruct Hin]. destruct Hin as [Hin|[]]. inversion Hin; subst.
+      cbn [trunc kids]. rewrite upto_unknown. now rewrite (Hu eq_refl).
+  - destruct (indexed_steps _ _ _ _ Hin) as [i ->]. apply indexed_in in Hin. destruct Hin as [_ Hn].
+    cbn [trunc kids]. rewrite upto_indexed; [now rewrite N.sub_0_r | lia |].
+    apply nth_error_Some. congruence.
+  - destruct (kkid_steps _ _ _ Hin) as [n ->]. cbn [trunc kids].
+    symmetry. apply upto_keys. eapply in_kkid_map; eauto.
+Qed.
+
+Lemma kids_repl t s v v' :
+  In (s, v) (kids t) -> unk_ok s v' -> kids (repl t s v') = replk (kids t) s v'.
+Proof.
+  intros Hin Hu. destruct t as [|fields unk [m2|]|elems|entries]; cbn [kids] in Hin.
+  - destruct Hin.
+  - destruct Hin as [Hin|[]]. inversion Hin; subst. cbn [repl kids replk].
+    destruct (step_eq_dec SAny SAny); congruence.
+  - apply in_app_or in Hin. destruct Hin as [Hin|Hin].
+    + destruct (fkid_steps _ _ _ Hin) as [n ->]. cbn [repl kids].
+      now rewrite replk_fields by (eapply in_fkid_map; eauto).
+    + destruct unk; [|destruct Hin]. destruct Hin as [Hin|[]]. inversion Hin; subst.
+      cbn [repl kids]. rewrite replk_unknown. now rewrite (Hu eq_refl).
+  - destruct (indexed_steps _ _ _ _ Hin) as [i ->]. apply indexed_in in Hin. destruct Hin as [_ Hn].
+    cbn [repl kids]. rewrite replk_indexed; [now rewrite N.sub_0_r | lia |].
+    apply nth_error_Some. congruence.
+  - destruct (kkid_steps _ _ _ Hin) as [n ->]. cbn [repl kids].
+    symmetry. apply replk_keys. eapply in_kkid_map; eauto.
+Qed.
+
+(* the tree that an all-continue traversal sees when push returns Terminate (or
+   an error) at relative path r: at every level along r the later siblings are
+   gone, and the value at r has no children *)
+Fixpoint trm (r : list step) (t : tree) : tree :=
+  match r with
+  | [] => t
+  | s :: r' =>
+      match apply_step t s with
+      | None => t
+      | Some v => trunc t s (match r' with [] => strip v | _ => trm r' v end)
+      end
+  end.
+
+(* ... when push returns Break at r: the value at r has no children and its
+   later siblings are gone; everything above is untouched *)
+Fixpoint brk (r : list step) (t : tree) : tree :=
+  match r with
+  | [] => t
+  | s :: r' =>
+      match apply_step t s with
+      | None => t
+      | Some v => match r' with [] => trunc t s (strip v) | _ => repl t s (brk r' v) end
+      end
+  end.
+
+Lemma trm_scalar r : trm r Scalar = Scalar.
+Proof. destruct r; reflexivity. Qed.
+Lemma brk_scalar r : brk r Scalar = Scalar.
+Proof. destruct r; reflexivity. Qed.
+
+Lemma assoc_in l k v : assoc l k = Some v -> In (k, v) l.
+Proof.
+  induction l as [|[k0 v0] r IH]; cbn [assoc]; [discriminate|].
+  destruct (k0 =? k) eqn:E.
+  - apply N.eqb_eq in E. intros H; inversion H; subst. now left.
+  - intros H. right. now apply IH.
+Qed.
+
+Lemma indexed_nth : forall l k n v,
+  nth_error l n = Some v -> In (SIndex (k + N.of_nat n), v) (indexed k l).
+Proof.
+  induction l as [|v0 r IH]; intros k n v H; [destruct n; discriminate|].
+  destruct n as [|n]; cbn [nth_error indexed] in *.
+  - inversion H; subst. left. f_equal. f_equal. lia.
+  - right. replace (k + N.of_nat (S n)) with (k + 1 + N.of_nat n) by lia. now apply IH.
+Qed.
+
+Lemma apply_step_in t s v : apply_step t s = Some v -> In (s, v) (kids t).
+Proof.
+  destruct t as [|fields unk [m2|]|elems|entries]; cbn [apply_step kids].
+  - discriminate.
+  - destruct s; try discriminate. intros H; inversion H; subst. now left.
+  - destruct s; try discriminate.
+    + intros H. apply in_or_app. left. apply assoc_in in H.
+      apply in_map_iff. exists (num, v). split; [reflexivity | exact H].
+    + destruct unk; [|discriminate]. intros H; inversion H; subst. apply in_or_app. right. now left.
+  - destruct s; try discriminate. intros H.
+    apply (indexed_nth _ 0) in H. now replace (0 + N.of_nat (N.to_nat i)) with i in H by lia.
+  - destruct s; try discriminate. intros H. apply assoc_in in H.
+    apply in_map_iff. exists (k, v). split; [reflexivity | exact H].
+Qed.
+
+Lemma apply_step_unknown t v : apply_step t SUnknown = Some v -> v = Scalar.
+Proof.
+  destruct t as [|fields unk [m2|]|elems|entries]; cbn [apply_step]; try discriminate.
+  destruct unk; [|discriminate]. congruence.
+Qed.
+
+Lemma visit_through push pop ch p v :
+  push p = Continue -> pop p = Continue ->
+  visit push pop ch p v = (fst (ch p v), Push p v :: snd (ch p v) ++ [Pop p v]).
+Proof.
+  intros H1 H2. unfold visit. rewrite H1, H2. cbn [amend is_nil].
+  destruct (ch p v) as [e ev]. cbn [fst snd]. destruct e; reflexivity.
+Qed.
+
+Lemma fst_clear (x : verdict * list event) : fst (let '(e, ev) := x in (clear_break e, ev)) = clear_break (fst x).
+Proof. now destruct x. Qed.
+Lemma snd_clear (x : verdict * list event) : snd (let '(e, ev) := x in (clear_break e, ev)) = snd x.
+Proof. now destruct x. Qed.
+
+Lemma paths_visit p v v' ev ev' :
+  paths ev = paths ev' ->
+  paths (Push p v :: ev ++ [Pop p v]) = paths (Push p v' :: ev' ++ [Pop p v']).
+Proof. intros H. cbn [paths map]. fold (paths (ev ++ [Pop p v])). fold (paths (ev' ++ [Pop p v'])).
+       now rewrite !paths_app, H. Qed.
+
+(* push returns V (Terminate or an error) at p ++ r *)
+Lemma children_trm V : is_nil V = false -> V <> Break ->
+  forall r t p, r <> [] -> wf t -> apply_steps t r <> None ->
+  fst (children (at_path (p ++ r) V) cont p t) = V /\
+  paths (snd (children (at_path (p ++ r) V) cont p t)) = paths (snd (children cont cont p (trm r t))).
+Proof.
+  intros HV HB. induction r as [|s r' IH]; intros t p Hr Hwf Hres; [congruence|].
+  cbn [apply_steps] in Hres. destruct (apply_step t s) as [v|] eqn:Es; [|congruence].
+  pose proof (apply_step_in _ _ _ Es) as Hin.
+  inversion Hwf as [t' Hnd Hkids]; subst t'.
+  cbn [trm]. rewrite Es. rewrite !children_kids, fst_clear, !snd_clear.
+  set (v' := match r' return tree with nil => strip v | cons _ _ => trm r' v end).
+  assert (Hu : unk_ok s v').
+  { intros ->. apply apply_step_unknown in Es. subst v. unfold v'. destruct r'; [reflexivity | apply trm_scalar]. }
+  rewrite (kids_trunc t s v v' Hin Hu).
+  assert (H12 : exists ev1 ev2,
+    visit (at_path (p ++ s :: r') V) cont (children (at_path (p ++ s :: r') V) cont) (p ++ [s]) v = (V, ev1) /\
+    visit cont cont (children cont cont) (p ++ [s]) v' = (Continue, ev2) /\ paths ev1 = paths ev2).
+  { destruct r' as [|s' r''].
+    - exists [Push (p ++ [s]) v; Pop (p ++ [s]) v], [Push (p ++ [s]) (strip v); Pop (p ++ [s]) (strip v)].
+      split; [now apply visit_hit | split; [apply visit_strip | reflexivity]].
+    - assert (Hq : p ++ s :: s' :: r'' = (p ++ [s]) ++ s' :: r'') by now rewrite <- app_assoc.
+      destruct (IH v (p ++ [s])) as [He Hp]; [discriminate | now apply (Hkids s v) | exact Hres |].
+      rewrite <- Hq in He, Hp.
+      eexists _, _. split; [|split].
+      + rewrite visit_through; [rewrite He; reflexivity | | reflexivity].
+        apply at_path_neq. intros E. rewrite <- (app_nil_r (p ++ [s])) in E. rewrite Hq in E.
+        apply app_inv_head in E. discriminate.
+      + apply visit_continue. apply children_continue.
+      + apply paths_visit. exact Hp. }
+  destruct H12 as (ev1 & ev2 & H1 & H2 & Hp).
+  destruct (loop_cut V p s r' v v' V ev1 ev2 H1 H2 Hp (kids t) Hin Hnd) as [He Hl].
+  rewrite HV in Hl. rewrite He. split; [destruct V; try reflexivity; congruence | exact Hl].
+Qed.
+
+(* push returns Break at p ++ r *)
+Lemma children_brk :
+  forall r t p, r <> [] -> wf t -> apply_steps t r <> None ->
+  fst (children (at_path (p ++ r) Break) cont p t) = Continue /\
+  paths (snd (children (at_path (p ++ r) Break) cont p t)) = paths (snd (children cont cont p (brk r t))).
+Proof.
+  induction r as [|s r' IH]; intros t p Hr Hwf Hres; [congruence|].
+  cbn [apply_steps] in Hres. destruct (apply_step t s) as [v|] eqn:Es; [|congruence].
+  pose proof (apply_step_in _ _ _ Es) as Hin.
+  inversion Hwf as [t' Hnd Hkids]; subst t'.
+  cbn [brk]. rewrite Es. rewrite children_kids, fst_clear, snd_clear.
+  destruct r' as [|s' r''].
+  - (* Break at this kid: its children and the later kids are skipped *)
+    assert (Hu : unk_ok s (strip v)).
+    { intros ->. apply apply_step_unknown in Es. now subst v. }
+    rewrite children_kids, snd_clear, (kids_trunc t s v (strip v) Hin Hu).
+    destruct (loop_cut Break p s [] v (strip v) Break _ _
+                (visit_hit Break eq_refl (p ++ [s]) v) (visit_strip (p ++ [s]) v) eq_refl (kids t) Hin Hnd) as [He Hl].
+    cbn [is_nil] in Hl. rewrite He. split; [reflexivity | exact Hl].
+  - (* Break further down: cleared below, this level continues *)
+    assert (Hq : p ++ s :: s' :: r'' = (p ++ [s]) ++ s' :: r'') by now rewrite <- app_assoc.
+    destruct (IH v (p ++ [s])) as [He Hp]; [discriminate | now apply (Hkids s v) | exact Hres |].
+    rewrite <- Hq in He, Hp.
+    assert (Hu : unk_ok s (brk (s' :: r'') v)).
+    { intros ->. apply apply_step_unknown in Es. subst v. apply brk_scalar. }
+    rewrite children_kids, snd_clear, (kids_repl t s v _ Hin Hu).
+    assert (H1 : visit (at_path (p ++ s :: s' :: r'') Break) cont
+                   (children (at_path (p ++ s :: s' :: r'') Break) cont) (p ++ [s]) v
+                 = (Continue, Push (p ++ [s]) v :: snd (children (at_path (p ++ s :: s' :: r'') Break) cont (p ++ [s]) v)
+                                ++ [Pop (p ++ [s]) v])).
+    { rewrite visit_through; [now rewrite He | | reflexivity].
+      apply at_path_neq. intros E. rewrite <- (app_nil_r (p ++ [s])) in E. rewrite Hq in E.
+      apply app_inv_head in E. discriminate. }
+    destruct (loop_cut Break p s (s' :: r'') v (brk (s' :: r'') v) Continue _ _ H1
+                (visit_continue _ _ _ (proj1 (children_continue _ _))) (paths_visit _ _ _ _ _ Hp)
+                (kids t) Hin Hnd) as [He' Hl].
+    cbn [is_nil] in Hl. rewrite He'. split; [reflexivity | exact Hl].
+Qed.
+
+Definition final (e : verdict) : verdict := match e with Break | Terminate => Continue | _ => e end.
+
+Lemma range_unfold push pop root :
+  range push pop root =
+  (final (fst (visit push pop (children push pop) [SRoot] root)),
+   snd (visit push pop (children push pop) [SRoot] root)).
+Proof. unfold range, final. now destruct (visit push pop (children push pop) [SRoot] root). Qed.
+
+Theorem terminate_semantics V r root :
+  is_nil V = false -> V <> Break ->
+  r <> [] -> wf root -> apply_steps root r <> None ->
+  fst (range (at_path (SRoot :: r) V) cont root) = final V /\
+  paths (snd (range (at_path (SRoot :: r) V) cont root)) = paths (snd (range cont cont (trm r root))).
+Proof.
+  intros HV HB Hr Hwf Hres.
+  destruct (children_trm V HV HB r root [SRoot] Hr Hwf Hres) as [He Hp]. cbn [app] in He, Hp.
+  rewrite !range_unfold. cbn [fst snd].
+  rewrite visit_through; [| apply at_path_neq; intros E; inversion E; congruence | reflexivity].
+  rewrite visit_continue by apply children_continue. cbn [fst snd]. rewrite He.
+  split; [reflexivity | now apply paths_visit].
+Qed.
+
+Theorem break_semantics r root :
+  r <> [] -> wf root -> apply_steps root r <> None ->
+  fst (range (at_path (SRoot :: r) Break) cont root) = Continue /\
+  paths (snd (range (at_path (SRoot :: r) Break) cont root)) = paths (snd (range cont cont (brk r root))).
+Proof.
+  intros Hr Hwf Hres.
+  destruct (children_brk r root [SRoot] Hr Hwf Hres) as [He Hp]. cbn [app] in He, Hp.
+  rewrite !range_unfold. cbn [fst snd].
+  rewrite visit_through; [| apply at_path_neq; intros E; inversion E; congruence | reflexivity].
+  rewrite visit_continue by apply children_continue. cbn [fst snd]. rewrite He.
+  split; [reflexivity | now apply paths_visit].
+Qed.
+
+(* a non-nil verdict from the push of the root step: nothing else is visited *)
+Theorem root_verdict_semantics V root :
+  is_nil V = false ->
+  range (at_path [SRoot] V) cont root = (final V, [Push [SRoot] root; Pop [SRoot] root]).
+Proof. intros HV. rewrite range_unfold, visit_hit by exact HV. reflexivity. Qed.
